@@ -122,6 +122,20 @@ CLAIMED = {
              "(derived values; C15), compiled-network streams.",
         technique="dynamic symbolic execution of the real Python functions over z3 proxies (symx), bounded; reference decoder; counterexample replay",
         design="DESIGN.md §3 C06"),
+    "C08": dict(
+        text="Bounded solver verdict on the real weight/scale encoder bookkeeping: encode_weight_and_scale_tensor is executed with the C "
+             "codec replaced by a stub returning a stream of SYMBOLIC length (any multiple of 16) that records the channels it is given: for "
+             "1 and 2 cores and a set of depth slicings, every output channel of every slice is encoded by exactly one core (scale records "
+             "and de-interleaved weights agree), encoded ranges are aligned, ordered and disjoint, scale_bytes == 10 per channel, the recorded "
+             "double-buffer sizes bound every slice assigned to that buffer, and the REAL create_dma_op / create_weights arithmetic for a "
+             "buffered slice stays inside a buffer of that size with equal source/destination lengths; a second encode request with a "
+             "different slicing gets a tensor describing its own slices (cache key); encode_bias packs the 80-bit record for every signed "
+             "40-bit bias / 32-bit scale / 6-bit shift and rejects out-of-range arguments.",
+        note="Partial by design: the byte content of the compressed streams (C codec, C07) is outside; what is decided is the index/offset/"
+             "length bookkeeping around it. Trusted: z3, symx proxies, length-only byte-stream stand-ins. Assumes intermediate slice boundaries "
+             "are multiples of the core count (established by propose_weight_buffering).",
+        technique="dynamic symbolic execution of the real Python functions over z3 proxies (symx) with the C codec stubbed to symbolic-length streams; counterexample replay",
+        design="DESIGN.md §3 C08"),
 }
 
 NOT_APPLICABLE = {
